@@ -66,3 +66,46 @@ Example C07_vmsteps_nonvacuous :
   VMSteps.interp_run BrVMSteps.w_fe BrVMSteps.w_cfg VNil BrVMSteps.run_ex_code GenVMSteps.vm_src 8 BrVMSteps.run_ex_dirty
   = run_code BrVMSteps.w_fe BrVMSteps.w_cfg VNil BrVMSteps.run_ex_code 8.
 Proof. vm_compute. split; reflexivity. Qed.
+
+(* ---- over the REGENERATED compiler schemes and the REGENERATED Run (BC/SourceCorrect.v) ---- *)
+Require X.BC.SourceCorrect X.Sem.NoMachine.
+
+(* any history of jobs (budget, environment, result cast, expression, fuel) on ONE machine in any state, each run
+   starting from what the previous one left (success, failure midway, budget exhausted): every run returns what the
+   language definition says (up to the unobservable memory counter inside a failure) ... *)
+Theorem C07_source_history_is_ref :
+  forall fe, X.Sem.NoMachine.fn_no_machine fe ->
+  forall h vm, forallb (X.BC.SourceCorrect.sjob_ok fe) h = true ->
+  map (option_map VMSteps.erase_stop_mem) (X.BC.SourceCorrect.source_history fe vm h)
+  = map (fun j => Some (VMSteps.erase_stop_mem
+                          (run_ref fe (X.BC.SourceCorrect.j_cfg j) (X.BC.SourceCorrect.j_env j)
+                                   (X.BC.SourceCorrect.j_cast j) (X.BC.SourceCorrect.j_expr j)))) h.
+Proof. exact X.BC.SourceCorrect.source_history_is_ref. Qed.
+Print Assumptions C07_source_history_is_ref.
+
+(* ... hence what the same job returns alone on a machine in the initial state *)
+Theorem C07_source_history_is_fresh :
+  forall fe, X.Sem.NoMachine.fn_no_machine fe ->
+  forall h vm, forallb (X.BC.SourceCorrect.sjob_ok fe) h = true ->
+  map (option_map VMSteps.erase_stop_mem) (X.BC.SourceCorrect.source_history fe vm h)
+  = flat_map (fun j => map (option_map VMSteps.erase_stop_mem) (X.BC.SourceCorrect.source_history fe init_state [j])) h.
+Proof. exact X.BC.SourceCorrect.source_history_is_fresh. Qed.
+Print Assumptions C07_source_history_is_fresh.
+
+(* a success, a run refused for the budget midway, a run failing inside a closure, the first job again - on a dirty
+   machine; the jobs meet sjob_ok (compilable, run_guard, enough fuel) *)
+Example C07_source_history_nonvacuous :
+  forallb (X.BC.SourceCorrect.sjob_ok BrVMSteps.w_fe) X.BC.SourceCorrect.cap_history = true /\
+  map (option_map VMSteps.erase_stop_mem)
+      (X.BC.SourceCorrect.source_history BrVMSteps.w_fe X.BC.SourceCorrect.cap_dirty X.BC.SourceCorrect.cap_history)
+  = map (fun j => Some (VMSteps.erase_stop_mem
+                          (run_ref BrVMSteps.w_fe (X.BC.SourceCorrect.j_cfg j) (X.BC.SourceCorrect.j_env j)
+                                   (X.BC.SourceCorrect.j_cast j) (X.BC.SourceCorrect.j_expr j))))
+        X.BC.SourceCorrect.cap_history /\
+  map (option_map X.BC.SourceCorrect.budget_verdict)
+      (X.BC.SourceCorrect.source_history BrVMSteps.w_fe X.BC.SourceCorrect.cap_dirty X.BC.SourceCorrect.cap_history)
+  = [Some false; Some true; Some false; Some false] /\
+  map (option_map (fun r => match r with Done _ _ => true | _ => false end))
+      (X.BC.SourceCorrect.source_history BrVMSteps.w_fe X.BC.SourceCorrect.cap_dirty X.BC.SourceCorrect.cap_history)
+  = [Some true; Some false; Some false; Some true].
+Proof. exact X.BC.SourceCorrect.source_history_nonvacuous. Qed.
